@@ -105,7 +105,8 @@ def run(ctx):
     first = None
     for k, bits in enumerate(bitsets):
         scs, res = schemas(ctx, bits, num, ctx.seed * 100 + k, "generate:bits=%s" % sorted(bits))
-        tot["states"] += res.generated or 0
+        m = re.search(r"The number of states generated: (\d+)", res.out)
+        tot["states"] += int(m.group(1)) if m else 0
         features(scs, feat)
         if first is None:
             first = scs
